@@ -375,7 +375,12 @@ class SymInt(SymNum):
     __int__ = __index__
 
     def __hash__(self):
-        return hash(CUR.concretize(self.t))
+        # a number with few feasible values is forked over them (its hash is then the real hash of that value); one with many is
+        # hashed by the injective model: equal to the hash of an earlier symbolic key iff the two are equal on this path (a CONCRETE key
+        # of the same value is not found -- a stated cut; no harness mixes the two kinds in one table)
+        if CUR.small_domain(self.t):
+            return hash(CUR.concretize(self.t))
+        return CUR.injective_hash(self.t)
 
     def __str__(self):
         return format(self, "")
